@@ -62,7 +62,14 @@ def gen_layout(rng):
         src = ("feh", feh)
     else:
         src = ("fake", rng.uniform(0.9, 1.45), rng.uniform(2.0, 8.0))
-    return {"mb": mb, "nbins": nbins, "method": method, "ifmr": src}
+    # the IMF handed to MassBins is a separate argument (EvolvedMF's `binning_breaks`): in 40 % of the layouts it has another number of
+    # components than the binning breaks have segments (same outer limits)
+    imf_mb = None
+    if rng.random() < 0.4:
+        k = rng.choice([c for c in (1, 2, 3, 4, 5) if c != nseg])
+        cuts = sorted(loguniform(rng, mb[0] * 1.02, mb[-1] / 1.02) for _ in range(k - 1))
+        imf_mb = [mb[0]] + cuts + [mb[-1]]
+    return {"mb": mb, "nbins": nbins, "method": method, "ifmr": src, "imf_mb": imf_mb}
 
 
 def make_ifmr(src):
@@ -70,7 +77,8 @@ def make_ifmr(src):
 
 
 def build(lay):
-    imf = PowerLawIMF(lay["mb"], [-1.0] * (len(lay["mb"]) - 1))
+    imb = lay.get("imf_mb") or lay["mb"]
+    imf = PowerLawIMF(imb, [-1.0] * (len(imb) - 1))
     return MassBins(lay["mb"], lay["nbins"], imf, make_ifmr(lay["ifmr"]), binning_method=lay["method"])
 
 
